@@ -928,7 +928,7 @@ def run(ctx: Ctx) -> None:
             rng(ctx.seed, "c11-order3").shuffle(order3)
             pos = 0
             n3done = 0
-            while pos < len(order3) and (_time.time() - t_start) < 800:
+            while pos < len(order3) and (_time.time() - t_start) < 700:
                 part = order3[pos:pos + 512]
                 pos += len(part)
                 jobs = [(header3, cases3[i], *_combo_for(cases3[i], pos + n), ("hist3", i), ctx.seed, None) for n, i in enumerate(part)]
